@@ -113,7 +113,8 @@ reg("C07", exc_ops=set(), nontrivial=nt_links, hook="network", obs_fail=False,
     profile={"raw": 0.0, "long": 0.1, "nlrus": 12, "bigids": 0.4}, title="Webentity network")
 reg("C08", exc_ops=set(), nontrivial=nt_links, hook="welinks", obs_fail=False,
     weights={"AddLinks": 24, "IndexBatchCrawl": 16, "CreateWe": 10, "AddPrefix": 6, "RemovePrefix": 5, "DeleteWe": 5},
-    profile={"raw": 0.0, "long": 0.1, "nlrus": 12}, n=(80, 1000), steps=(14, 20), title="Per-webentity link queries")
+    profile={"raw": 0.0, "long": 0.1, "nlrus": 12, "homelinks": 0.3, "prefixlinks": 0.4, "siblinks": 0.3}, n=(130, 1000), steps=(14, 20),
+    title="Per-webentity link queries")
 reg("C09", exc_ops=set(), nontrivial=nt_pages, hook="pagination", obs_fail=False,
     weights={"Paginate": 40, "AddPage": 30, "AddPages": 8, "CreateWe": 8, "AddPrefix": 8, "AddLinks": 4,
              "IndexBatchCrawl": 4, "Clear": 0, "DeleteWe": 2, "RemovePrefix": 2, "MovePrefix": 2},
@@ -812,6 +813,6 @@ def replay(pid, path, work):
         print("replay: no violation of %s on the current tree (all verdicts: %s)" % (body["property"], val["verdicts"]))
     return 1 if viol else 0
 reg("C20", exc_ops=set(), nontrivial=nt_links, hook="toplinked", obs_fail=False,
-    weights={"AddLinks": 26, "IndexBatchCrawl": 16, "CreateWe": 8, "AddPrefix": 5},
-    profile={"raw": 0.0, "long": 0.1, "nlrus": 12}, n=(80, 1000), steps=(14, 20), title="Most-linked pages")
+    weights={"AddLinks": 30, "IndexBatchCrawl": 16, "CreateWe": 8, "AddPrefix": 5, "Clear": 8},
+    profile={"raw": 0.0, "long": 0.1, "nlrus": 10}, n=(130, 1000), steps=(16, 20), title="Most-linked pages")
 NOT_YET = {}
